@@ -116,28 +116,6 @@ Definition spec_ok (c : case) : bool :=
     pres_eqb (parse_ip_addr s) obs
   end.
 
-(* spec failures through the one listed site: Chain.ClientIP returning (nil, nil) *)
-Fixpoint has_empty_chain (r : resolver) : bool :=
-  match r with
-  | RChain [] => true
-  | RChain subs => existsb has_empty_chain subs
-  | _ => false
-  end.
-
-Definition is_noresult (r : result addr) : bool := match r with NoResult => true | _ => false end.
-
-(* the case fails the specification, the model reproduces it, and every
-   observation that fails is the (nil, nil) return of a chain containing an empty chain *)
-Definition known_empty_chain (c : case) : bool :=
-  match c with
-  | CResolve rq r obs_base attacks =>
-    has_empty_chain r && negb (spec_ok c) && model_agrees c
-    && (is_noresult obs_base || base_ok rq r obs_base)
-    && forallb (fun a : attack => is_noresult (snd a) || attack_ok rq r obs_base a) attacks
-  | _ => false
-  end.
-
 Definition mismatches (cs : list case) : list nat := true_idx (map (fun c => negb (model_agrees c)) cs).
 Definition spec_violations (cs : list case) : list nat := true_idx (map (fun c => negb (spec_ok c)) cs).
 Definition fuel_outs (cs : list case) : list nat := [].   (* the model uses no fuel *)
-Definition known_empty_chain_cases (cs : list case) : list nat := true_idx (map known_empty_chain cs).
